@@ -433,7 +433,11 @@ func c12LemmaJob(tier string) *SeqJob {
 	nameLens := []int{1, 127, 128, 600}
 	tagCounts := []int{0, 1, 8, 13, 14, 15, 16}
 	tagLens := []int{1, 127, 128}
-	kinds := []string{"counter", "gauge", "timer", "vbucket-first", "vbucket-wide", "dbucket", "dbucket-odd"}
+	// (the last four: the measured metric is allocated AFTER a twin that an allocation-time memo could confuse it with -
+	// a gauge with a name of the same length and the same tags; a counter whose tag set has the same "name=value"
+	// strings split at another '=' and so the same key in the reporter's tag cache, with longer or shorter parts)
+	kinds := []string{"counter", "gauge", "timer", "vbucket-first", "vbucket-wide", "dbucket", "dbucket-odd",
+		"counter-after-gauge-twin", "timer-after-gauge-twin", "counter-after-colliding-tags-long-first", "counter-after-colliding-tags-short-first"}
 	ks := []int{1, 14, 15, 16, 130}
 	run := func(proto string, ncommon int, kind string, nameLen, nTags, tagLen int) (string, string, int) {
 		s := newFastSink()
@@ -476,6 +480,30 @@ func c12LemmaJob(tier string) *SeqJob {
 				switch kind {
 				case "counter":
 					h := r.AllocateCounter(name, tags)
+					charged = m3.VerifChargedSize(h)
+					report = func() { h.ReportCount(math.MinInt64) }
+				case "counter-after-gauge-twin", "timer-after-gauge-twin":
+					twin := "g" + name[1:]
+					_ = r.AllocateGauge(twin, tags) // allocated only: the batch holds copies of the measured metric and nothing else
+					if kind == "counter-after-gauge-twin" {
+						h := r.AllocateCounter(name, tags)
+						charged = m3.VerifChargedSize(h)
+						report = func() { h.ReportCount(math.MinInt64) }
+					} else {
+						h := r.AllocateTimer(name, tags)
+						charged = m3.VerifChargedSize(h)
+						report = func() { h.ReportTimer(math.MinInt64) }
+					}
+				case "counter-after-colliding-tags-long-first", "counter-after-colliding-tags-short-first":
+					a, b, c := "a", strings.Repeat("b", 100), strings.Repeat("c", 100)
+					long := map[string]string{a: b + "=" + c}  // a value of 201 bytes: a two-byte length prefix
+					short := map[string]string{a + "=" + b: c} // 102 and 100 bytes: one-byte prefixes
+					first, second := long, short
+					if kind == "counter-after-colliding-tags-short-first" {
+						first, second = short, long
+					}
+					_ = r.AllocateCounter(name, first)
+					h := r.AllocateCounter(name, second)
 					charged = m3.VerifChargedSize(h)
 					report = func() { h.ReportCount(math.MinInt64) }
 				case "gauge":
